@@ -465,11 +465,58 @@ def real_detector(c):
         return list(det.encodings), det.markup, det.sniffed_encoding
 
 
-def real_soup(c):
+class _Reader:
+    """the least a file-like object can be: something with read()"""
+    def __init__(self, content):
+        self._c = content
+
+    def read(self):
+        return self._c
+
+
+def as_markup_argument(m, form):
+    """The documented input forms of the constructor: the text/bytes themselves, or an open filehandle / file-like object.
+    Returns (argument, cleanup)."""
+    import io
+    import tempfile
+    if form == "direct":
+        return m, None
+    if form == "reader":
+        return _Reader(m), None
+    if isinstance(m, bytes):
+        if form == "bytesio":
+            return io.BytesIO(m), None
+        f = tempfile.TemporaryFile("w+b")      # an open binary file
+        f.write(m)
+        f.seek(0)
+        return f, f.close
+    if form == "stringio":
+        return io.StringIO(m, newline=""), None
+    f = tempfile.TemporaryFile("w+", encoding="utf-8", errors="surrogatepass", newline="")   # an open text file
+    f.write(m)
+    f.seek(0)
+    return f, f.close
+
+
+FILE_FORMS_BYTES = ["bytesio", "file", "reader"]
+FILE_FORMS_STR = ["stringio", "file", "reader"]
+
+
+def extra_form(c, m):
+    """Which file-like form (if any) this case is ALSO run through: always when a from_encoding is given, else one case in three."""
+    h = int(hashlib.sha256((repr(m[:200]) + repr(c.get("known")) + repr(c.get("exclude"))).encode("utf-8", "replace")).hexdigest()[:8], 16)
+    forms = FILE_FORMS_BYTES if isinstance(m, bytes) else FILE_FORMS_STR
+    if c.get("known") or h % 3 == 0:
+        return forms[(h // 3) % 3]
+    return None
+
+
+def real_soup(c, form="direct"):
     from bs4 import BeautifulSoup
     from bs4.exceptions import ParserRejectedMarkup
     _patch_feed()
     m = case_markup(c)
+    m_arg, cleanup = as_markup_argument(m, form)
     fe = c["known"][0] if c["known"] else None
     del _FED[:]
     kw = {"from_encoding": fe}
@@ -481,9 +528,12 @@ def real_soup(c):
     with warnings.catch_warnings(), chardet_as(c):
         warnings.simplefilter("ignore")
         try:
-            s = BeautifulSoup(m, "html.parser", exclude_encodings=list(c["exclude"]) or None, **kw)
+            s = BeautifulSoup(m_arg, "html.parser", exclude_encodings=list(c["exclude"]) or None, **kw)
         except ParserRejectedMarkup:
             return "rejected"
+        finally:
+            if cleanup:
+                cleanup()
     return dict(text=_FED[-1] if _FED else None, enc=s.original_encoding, decl=s.declared_html_encoding, repl=s.contains_replacement_characters)
 
 
@@ -598,9 +648,21 @@ def eval_case(c):
             if rs != want:
                 viol.append(dict(what="BeautifulSoup constructor: decoded text / original_encoding / declared_html_encoding / contains_replacement_characters differ from the property statement",
                                  expected=short(want), observed=short(rs), stream=c["stream"] + "/soup"))
-            lines.append(f"c07 construct {mb} {p_opt(fe_new)} {p_opt(fe_old)} {p_names(c['exclude'])} {p_opt(ch)} {p_bytes(stripped)} {tab} {txt}")
+            lines.append(f"c07 construct d {mb} {p_opt(fe_new)} {p_opt(fe_old)} {p_names(c['exclude'])} {p_opt(ch)} {p_bytes(stripped)} {tab} {txt}")
             expect.append((("ok " + fmt_res(rs)) if rs != "rejected" else "rejected") if not light else None)
             tags.append("construct")
+            xf = extra_form(c, m)
+            if xf:
+                # the same document handed over as an open filehandle / file-like object: same outcome demanded
+                rf = real_soup(c, xf)
+                if rf != want:
+                    viol.append(dict(what=f"BeautifulSoup constructor with the bytes supplied as a file-like object ({xf}): decoded text / original_encoding / "
+                                          "declared_html_encoding / contains_replacement_characters differ from the property statement (from_encoding, "
+                                          "exclude_encodings and the document are the same as for the bytes themselves)",
+                                     expected=short(want), observed=short(rf), stream=c["stream"] + "/soup-filelike", extra_case={"markup_form": xf}))
+                lines.append(f"c07 construct f {mb} {p_opt(fe_new)} {p_opt(fe_old)} {p_names(c['exclude'])} {p_opt(ch)} {p_bytes(stripped)} {tab} {txt}")
+                expect.append((("ok " + fmt_res(rf)) if rf != "rejected" else "rejected") if not light else None)
+                tags.append("construct-filelike:" + xf)
         if c.get("builder"):
             # prepare_markup itself, with a document_declared_encoding (the builder API; the constructor never passes one)
             rp = real_prepare(c)
@@ -630,6 +692,15 @@ def eval_case(c):
         lines.append(f"c07 prepare {ms} {p_opt(c['known'][0] if c['known'] else None)} none - none - - -")
         expect.append("ok " + fmt_res(rs))
         tags.append("prepare-str")
+        xf = extra_form(c, m)
+        if xf and not any(0xD800 <= ord(x) <= 0xDFFF or x == "\r" for x in m):
+            rf = real_soup(c, xf)
+            if rf != want:
+                viol.append(dict(what=f"BeautifulSoup constructor with the text supplied as a file-like object ({xf}): str markup is not passed through untouched",
+                                 expected=short(want), observed=short(rf), stream=c["stream"] + "/soup-filelike", extra_case={"markup_form": xf}))
+            lines.append(f"c07 construct f {ms} {p_opt(c['known'][0] if c['known'] else None)} none - none - - -")
+            expect.append("ok " + fmt_res(rf))
+            tags.append("construct-filelike-str:" + xf)
         # EncodingDetector on a str: no BOM, str flavour of the declaration patterns, chardet not consulted
         from bs4.dammit import EncodingDetector as ED
         with chardet_as({"chardet": "x-must-not-be-consulted"}):
@@ -698,7 +769,7 @@ def work(job):
             if chunk == 0 and len(samples) < 3:
                 samples.append({k: c[k] for k in c if k not in ("markup_hex",)} | {"markup": repr(case_markup(c))[:120], "result": short(o)})
         for x in v:
-            x["case"] = c
+            x["case"] = c | x.pop("extra_case", {})
             x["kf"] = kf_of(c, x["what"])
             viols.append(x)
         for l, e, t in zip(lines, expect, tags):
@@ -789,7 +860,7 @@ def work_fixed(job):
         dist["how:" + o["how"]] += 1
         nontriv.append(hashlib.sha256(json.dumps(c, sort_keys=True).encode()).hexdigest()[:12])
         for x in v:
-            x["case"] = c
+            x["case"] = c | x.pop("extra_case", {})
             x["kf"] = kf_of(c, x["what"])
             viols.append(x)
         for l, e, t in zip(lines, expect, tags):
